@@ -239,7 +239,7 @@ more('C13', 'interpretation of CliffordGate.__pow__ over the model group Z; must
 more('C14', 'dependence rule on the phase of PauliString powers; path rule on empty decompositions', 'C14.n every non-refusing return of PauliString.__pow__ depends on the phase of the coefficient; C14.o a decomposition path that explicitly hands back no operation has tested a phase-carrying field')
 more('C16', 'tags-with-untagged rule in the circuit writer; subclass-recognition rule in sweep converters',
      'C16.u a branch that serializes `<op>.untagged` also looks at `<op>.tags`; C16.v where a sweep class with an overriding subclass (Zip <- ZipLongest) is recognised, the subclass is tested too')
-more('C17', 'interpretation of the AQT single-qubit shortcut', 'C17.k the hard-wired single-qubit replacement of the AQT target gateset equals the gate it replaces')
+more('C17', 'interpretation of the AQT single-qubit shortcut; writer/reader agreement on record keys', 'C17.k the hard-wired single-qubit replacement of the AQT target gateset equals the gate it replaces; C17.l a writer that joins records which the reader stores in a dictionary by key refuses repeated keys')
 more('C19', 'field coverage of Condition._qasm_; dimension coverage of gate _qasm_', 'C19.j _qasm_ of every Condition class reads each declared field (writes it or refuses under a test of it); C19.k _qasm_ of every class that can be built with a dimension / qid shape reads it')
 for _pid in ('C01', 'C02', 'C03', 'C04', 'C05', 'C06', 'C07', 'C08', 'C09', 'C10', 'C11', 'C12', 'C13', 'C14', 'C16', 'C17', 'C18', 'C19', 'C20'):
     more(_pid, 'constructor / optional-argument purity and single-use-generator rules over the attributed functions',
